@@ -446,7 +446,9 @@ def run(ctx):
     jobs = []
     per = 120
     for b in bs:
-        cases = [(i, t, sp) for i, t in enumerate(trees) for sp in sps]
+        # (the size ladder's long equations in the first two spellings only: redundant parentheses at every atom of a 70-level
+        # nesting send the library's PEG parser into exponential backtracking - it neither answers nor rejects within the hour)
+        cases = [(i, t, sp) for i, t in enumerate(trees) for sp in (sps if len(json.dumps(t)) < 2000 else sps[:2])]
         cases += [(i, t, "bareif") for i, t in enumerate(trees) if xmile.has_bare_if(t)]
         for k in range(0, len(cases), per):
             jobs.append((b, cases[k:k + per]))
